@@ -11,8 +11,9 @@
                                          sequences of the engines), C07_forbidden_never_read (every read returns store rows)
      "refused every time"                C07_forbidden_always_refused, C07_forbidden_every_time (histories containing the same hash any
                                          number of times), C07_rejected_peer_dropped_every_time (after any engine event sequence)
-     "descendants only ever orphans"     C07_descendants_orphan_partial (+ C07_orphans_stay_orphans_partial); the positive-work
-                                         hypothesis is the one of C01 (zero-work headers: known finding of C01)
+     "descendants only ever orphans"     C07_descendants_orphan (descendants at ANY depth, every history, ANY work values, parents arriving
+                                         in any order), C07_descendants_orphan_forever / C07_orphans_stay_orphans (whatever arrives later);
+                                         the older positive-work, children-only statements are kept as _partial
      "sender disconnected (and banned)"  C07_rejected_peer_dropped_default / _exp: exactly [Ban p; Disconnect p] / [Disconnect p],
                                          store = the store before the forbidden header (rest of the batch not ingested), no request
      "checkpoint mismatch"               C07_checkpoint_contradiction_any_checkpoint_default / _exp (ANY checkpoint of the list, any batch,
@@ -23,7 +24,7 @@
      "both cursors = least checkpoint above h"   C07_cursor_spec (sorted lists of 0..n checkpoints)
      "still converges afterwards"        C07_contained_then_converges_partial (composition with C06 catchup_linear) *)
 From Coq Require Import ZArith NArith List Bool.
-From BHS Require Import Work Store Chain ChainSpec ChainAdd ChainMain SyncNode SyncDefault SyncExp SyncSys SyncSpec SyncC07Proofs SyncC06Proofs.
+From BHS Require Import Work Store Chain ChainSpec ChainInv ChainAdd ChainMain SyncNode SyncDefault SyncExp SyncSys SyncSpec SyncC07Proofs SyncC06Proofs ChainFields ChainForbidden.
 Import ListNotations.
 Open Scope Z_scope.
 
@@ -75,6 +76,31 @@ Theorem C07_descendants_orphan_partial : forall f gid gpl hs,
   gid <> 0%N -> positive_work hs -> nonzero_ids hs -> memN gid f = false -> memN 0%N f = false ->
   forall r, In r (run f gid gpl hs) -> memN (prev r) f = true -> st r = Orphan /\ orph r = true.
 Proof. exact descendants_of_forbidden_orphan. Qed.
+
+(* the full statement: [desc_forb f s r] = r is linked through stored rows (any number of them) to a row whose previous
+   hash is forbidden.  Every history, any work values (zero-work headers included), any arrival order. *)
+Theorem C07_descendants_orphan : forall f gid gpl hs,
+  gid <> 0%N -> nonzero_ids hs -> memN gid f = false -> memN 0%N f = false ->
+  forall r, desc_forb f (run f gid gpl hs) r -> st r = Orphan.
+Proof. exact descendants_of_forbidden_orphan_all. Qed.
+
+(* "can only EVER be": whatever is submitted afterwards *)
+Theorem C07_descendants_orphan_forever : forall f gid gpl hs hs' r,
+  gid <> 0%N -> nonzero_ids (hs ++ hs') -> memN gid f = false -> memN 0%N f = false ->
+  desc_forb f (run f gid gpl hs) r ->
+  exists r', by_hash (run f gid gpl (hs ++ hs')) (id r) = Some r' /\ st r' = Orphan.
+Proof. exact descendants_of_forbidden_orphan_forever. Qed.
+
+Theorem C07_orphans_stay_orphans : forall f gid gpl hs hs' i r, gid <> 0%N -> nonzero_ids (hs ++ hs') ->
+  by_hash (run f gid gpl hs) i = Some r -> st r = Orphan ->
+  exists r', by_hash (run f gid gpl (hs ++ hs')) i = Some r' /\ st r' = Orphan /\ dummy r' = dummy r.
+Proof. exact orphans_stay_orphans_all. Qed.
+
+(* the oracle applied to the implementation's table (descendants closed under the parent relation, all ORPHAN)
+   accepts every store satisfying the structural invariant: it raises no alarm on a correct implementation *)
+Theorem C07_oracle_desc_orphan_all : forall f s tip, Inv s tip -> no_forb f s -> memN 0%N f = false ->
+  spec_desc_orphan_all f (rows_of s) = true.
+Proof. exact desc_orphan_all_inv. Qed.
 
 Theorem C07_oracle_desc_orphan : forall f s, Valid s -> no_forb f s -> memN 0%N f = false -> spec_desc_orphan f (rows_of s) = true.
 Proof. exact descendants_orphan_valid. Qed.
@@ -182,9 +208,9 @@ Proof. vm_compute. repeat split; try reflexivity. intros c1 c2 [<-|[]] [<-|[]] _
 Example ex_exp_stale_contradiction_dropped :
   let cfg := {| x_cps := [(1, 20%N)]; x_forb := [] |} in
   let s := run_from [] (init 1 (ex_pl 486604799)) exA in                         (* another peer has passed the checkpoint *)
-  let st := fst (e_start cfg 8 5 s) in
-  snd (e_on_headers cfg 8 st exB) = [Disconnect 8] /\ ids (e_store (fst (e_on_headers cfg 8 st exB))) = [2; 22; 21; 20; 1]%N /\
-  map st (e_store (fst (e_on_headers cfg 8 st exB))) = [Stale; Longest; Longest; Longest; Longest].
+  let est := fst (e_start cfg 8 5 s) in
+  snd (e_on_headers cfg 8 est exB) = [Disconnect 8] /\ ids (e_store (fst (e_on_headers cfg 8 est exB))) = [2; 22; 21; 20; 1]%N /\
+  map st (e_store (fst (e_on_headers cfg 8 est exB))) = [Stale; Longest; Longest; Longest; Longest].
 Proof. vm_compute. repeat split; reflexivity. Qed.
 
 (* ---- a matching header advances the cursor ---- *)
@@ -262,7 +288,7 @@ Example ex_forbidden_in_batch :
   let cfg := ex_cfg [] [4%N] in
   snd (on_headers cfg (ex_state cfg) 7 [ex_h 2; ex_h 3; ex_h 4; ex_h 5]) = [Ban 7; Disconnect 7] /\
   ids (d_store (fst (on_headers cfg (ex_state cfg) 7 [ex_h 2; ex_h 3; ex_h 4; ex_h 5]))) = [3; 2; 1]%N /\
-  hloop (c_forb cfg) (d_next (ex_state cfg)) (d_store (ex_state cfg)) false None [ex_h 2; ex_h 3] <> HBan [] /\
+  hloop (c_forb cfg) (sm_cps cfg) (d_next (ex_state cfg)) (d_store (ex_state cfg)) false None [ex_h 2; ex_h 3] <> HBan [] /\
   d_hfm (ex_state cfg) = true.
 Proof. vm_compute. repeat split; try reflexivity. discriminate. Qed.
 
@@ -300,6 +326,10 @@ Print Assumptions C07_forbidden_every_time.
 Print Assumptions C07_rejected_peer_dropped_every_time.
 Print Assumptions C07_oracle_forbidden_absent.
 Print Assumptions C07_descendants_orphan_partial.
+Print Assumptions C07_descendants_orphan.
+Print Assumptions C07_descendants_orphan_forever.
+Print Assumptions C07_orphans_stay_orphans.
+Print Assumptions C07_oracle_desc_orphan_all.
 Print Assumptions C07_oracle_desc_orphan.
 Print Assumptions C07_orphans_stay_orphans_partial.
 Print Assumptions C07_rejected_peer_dropped_default.
